@@ -347,6 +347,25 @@ PROPS = {
         "lean_props": ["C19", "EngineThms"],
         "streams": [HISTUC],
     },
+    "C20": {
+        "claim": {
+            "text": "Arithmetic of the projection, for every route and objective: the formatter's derived "
+                    "route_waiting_duration (route − travel − stops) equals the sum of the stops' waiting durations "
+                    "whenever the legs chain (whole seconds) and is never negative; cumulative distances are prefix sums "
+                    "ending in the route total; base × factor = value. 'Every stop exactly once' follows the "
+                    "bookkeeping invariant (C08) on the sub-alphabet where it holds; FALSE in general — counterexample "
+                    "theorem for the half planned group (finding E2: a stop printed nowhere / twice). That the Go "
+                    "formatter IS this projection is the tie: the fmt stream formats the last solution of generated "
+                    "cases (with/without start/end locations and start times, alternates, groups, custom data on stops, "
+                    "alternates and vehicles), parses the JSON back and compares every field with the Solution object "
+                    "and the input (custom data by JSON equality). Repaired: alternates lost custom_data (E9).",
+            "note": TB_COMMON + " check.Format and the CLI wrapper add statistics around this block; they are not compared.",
+            "technique": "Lean 4 proof (projection arithmetic, partial + counterexample for exactly-once) + field-by-field output differential",
+            "design_ref": "DESIGN.md §5 C20",
+        },
+        "lean_props": ["C20", "C08"],
+        "streams": [{"name": "fmt", "corpus": True}],
+    },
 }
 
 NOT_APPLICABLE = {}
